@@ -26,3 +26,25 @@ PROPS["C07"] = dict(
                  "expected traces come from a 40-line reference interpreter over the same tree",
                  "escaping programs run in a forked child (status + stderr diagnostic checked)"],
 )
+
+PROPS["C09"] = dict(
+    harness="c09_cmp.c", level="exploration",
+    technique="runtime oracle: reference orders computed in C over boundary grids and random pairs/triples "
+              "(sign, antisymmetry, reflexivity, transitivity, predicate agreement) under ASan+UBSan",
+    level_text="Exploration: complete boundary grids (27 Int, 28 Float, 24 String values, 29 types: all pairs, all "
+               "Int/Float triples) plus ~100k (thorough: millions of) random pairs and triples of Int, Float, String, "
+               "plain structs, Array/List/Tuple in every kind combination and Tree; UBSan watches the arithmetic "
+               "inside the comparison functions. Values are sampled, the grids are exhaustive.",
+    level_note="Trusts the C reference orders (<, memcmp, unsigned byte order, lexicographic loops); Tree reference "
+               "uses the iteration direction observed on a two-element tree.",
+    quick=[("asan", 16, 400)],
+    thorough=[("asan", 16, 6000), ("plain", 16, 12000)],
+    floors={"quick": {"int_pairs_diff_beyond_32_bits": 100, "int_pairs_diff_beyond_64_bits": 10,
+                      "float_pairs_with_denormal": 10, "strings_with_high_bytes": 10,
+                      "string_pairs_sharing_prefix": 10, "seq_pairs_cross_kind": 10,
+                      "seq_pairs_different_length": 10, "tree_pairs": 10, "boundary_keys_looked_up": 1}},
+    rule="case = 40 Int, 30 Float, 30 String, 20 plain-struct, 8 sequence and 6 Tree pairs+triples drawn from "
+         "boundary-biased generators; distinct = hash of the first values of each kind; non-trivial = contains an "
+         "Int pair whose difference does not fit in 32 bits",
+    assumptions=["NaN excluded (as the statement says)", "Tuple elements are distinct objects"],
+)
